@@ -74,7 +74,8 @@ impl ConcCase {
             out.push(c);
         }
         for i in 0..self.scripts.len() {
-            for s in crate::checks::shrink_prog(&self.scripts[i]).into_iter().take(12) {
+            for st in crate::checks::shrink_prog_steps(&self.scripts[i]).into_iter().take(12) {
+                let s = crate::checks::apply_prog_shrink(&self.scripts[i], &st);
                 let mut c = self.clone();
                 c.scripts[i] = s;
                 c.decisions.clear();
